@@ -2118,8 +2118,9 @@ func ruleScrubbedCopyStoredBack(r *Run, rule string) {
 // ruleScrubberReadsNoSharedState (round-4 seed C17-8): whether a field is scrubbed is decided by the tag of THAT field of THAT type.
 // The functions Secure reaches may compare with a package-level value (timeType) but keep nothing between calls: a cache keyed
 // by anything less than the reflect.Type itself (a name — anonymous and function-local types share theirs) answers for one
-// type with the tags of another, and a secure-tagged field goes unscrubbed. A package-level variable of package clone is used
-// by the scrubber only as an operand of == / !=.
+// type with the tags of another, and a secure-tagged field goes unscrubbed. The scrubber only reads the package-level variables
+// of package clone (a comparison with timeType, a dispatch table filled once): it assigns none, and calls no pointer-receiver
+// method on one.
 func ruleScrubberReadsNoSharedState(r *Run, rule string) {
 	pkg := r.P.Pkgs[pkgClone]
 	if pkg == nil {
@@ -2153,14 +2154,45 @@ func ruleScrubberReadsNoSharedState(r *Run, rule string) {
 			if !isVar || v.Pkg() != pkg.Types || v.Parent() != pkg.Types.Scope() {
 				return true
 			}
-			okUse := false
-			if len(stack) >= 2 {
-				if be, ok := stack[len(stack)-2].(*ast.BinaryExpr); ok && (be.Op == token.EQL || be.Op == token.NEQ) {
-					okUse = true
+			// reading is fine (a comparison with timeType, a dispatch table filled once); keeping state is not: the variable is
+			// assigned, indexed on the left of an assignment, incremented, has its address taken, or a pointer-receiver
+			// method (sync.Map.Load/Store, a mutex) is called on it
+			okUse := true
+			for k := len(stack) - 2; k >= 0 && okUse; k-- {
+				switch a := stack[k].(type) {
+				case *ast.AssignStmt:
+					for _, l := range a.Lhs {
+						if containsNode(l, id) {
+							okUse = false
+						}
+					}
+				case *ast.IncDecStmt:
+					okUse = false
+				case *ast.UnaryExpr:
+					if a.Op == token.AND {
+						okUse = false
+					}
+				case *ast.SelectorExpr:
+					if ast.Unparen(a.X) == ast.Expr(id) {
+						if sel := info.Selections[a]; sel != nil && sel.Kind() == types.MethodVal {
+							if f, ok := sel.Obj().(*types.Func); ok {
+								if sig, ok := f.Type().(*types.Signature); ok && sig.Recv() != nil {
+									if _, ptr := sig.Recv().Type().(*types.Pointer); ptr {
+										okUse = false
+									}
+								}
+							}
+						}
+					}
+				case *ast.IndexExpr, *ast.ParenExpr:
+					continue
+				}
+				if _, isStmt := stack[k].(ast.Stmt); isStmt {
+					break
 				}
 			}
 			if !okUse && (bad == "" || id.Pos() < bpos) {
-				bad, bpos = ShortFn(k)+" uses the package-level variable "+v.Name()+" for more than a comparison: what the scrubber decides about a field must depend on that field's own tag, not on state kept between calls (a cache keyed by a type's name answers for anonymous or same-named local types with the tags of another type)", id.Pos()
+				bad, bpos = ShortFn(k)+" keeps state in the package-level variable "+v.Name()+": what the scrubber decides about a field must depend on that field's own tag, not on state kept between calls (a cache keyed by a type's name answers for anonymous or same-named local types with the tags of another type)", id.Pos()
 			}
 			return true
 		})
@@ -2174,5 +2206,5 @@ func ruleScrubberReadsNoSharedState(r *Run, rule string) {
 			bpos = f.Decl.Pos()
 		}
 	}
-	r.Check(rule, "scrubber-keeps-no-state", bpos, bad == "", "%s", orOK(bad, "package-level variables are only compared with"))
+	r.Check(rule, "scrubber-keeps-no-state", bpos, bad == "", "%s", orOK(bad, "package-level variables are only read"))
 }
